@@ -27,10 +27,10 @@ def specs_for(chk, n, profile):
         if excl_hint(profile, i):
             opts['cat_tail'] = True
         if profile.get('excl') and i % 7 == 3:
-            opts['fixed_cat'] = True
+            opts['fixed_cat'] = 'nested' if (i // 7) % 2 == 0 else True
         if profile.get('reuse') and i % 4 == 1:
             opts['reuse'] = 'pool' if (i // 4) % 2 == 0 else True     # 'pool': the two call sites at two resolutions
-        if profile.get('unsupported') and i % profile.get('unsupported_every', 6) == 0:
+        if profile.get('unsupported') and i % profile.get('unsupported_every', 6) == 0 and not opts.get('fixed_cat'):
             opts['unsupported'] = 'add_cat' if (i // 6) % 2 == 0 else 'dw_cat'
         excl = None
         if profile.get('excl') and (rng.random() < profile.get('p_excl', .35) or opts.get('cat_tail')):
